@@ -40,12 +40,21 @@ def _exec(args):
         # (1) Python integers as CODES (raw=True): scalars by every raw route, and arrays
         route = rng.choice(['ctor', 'set_val', 'setitem', 'call-reset'])
         out.append(x_store.observe(fx, np, t, ('trunc', o), codes, 'pyint', route, ['C18'], False, raw=True))
+        out.append(x_store.observe(fx, np, t, ('trunc', o), codes, 'pyint', 'widen-setitem', ['C18'], False, raw=True))
+        # containers where NumPy on its own would pick float64: items in [2^63, 2^64) next to int64 items, nothing wider
+        band = [(1 << 63) + 1, 5, (1 << 64) - 1, rng.randint(1 << 63, (1 << 64) - 1), -1 if s else 1, rng.randint(0, 1 << 62)]
+        rng.shuffle(band)
+        out.append(x_store.observe(fx, np, t, ('trunc', o), band, rng.choice(['list', 'tuple', 'nested-list', 'nested-tuple', 'list-1xk', 'list-3d']),
+                                   rng.choice(['ctor', 'set_val']), ['C18'], True, raw=True))
+        if f <= 8:
+            out.append(x_store.observe(fx, np, t, ('trunc', o), [F(b) for b in band], 'pyint-' + rng.choice(['list', 'nested-list', 'nested-tuple', 'list-1xk']),
+                                       rng.choice(['ctor', 'call', 'set_val']), ['C18'], True))
         inr = [c for c in codes if lo <= c <= hi]
         out.append(x_store.observe(fx, np, t, ('trunc', o), codes[:12], rng.choice(['list', 'ndarray-obj']), rng.choice(['ctor', 'set_val']), ['C18'], True, raw=True))
         out.append(x_store.observe(fx, np, t, ('trunc', o), inr[:8] or [0], 'list', 'ctor', ['C18'], True, raw=True))
         # (2) Python integers as integer VALUES (scaled by 2^n_frac)
         vals = [F(c) for c in (codes[:10] + [c >> f for c in codes[:14]])]
-        out.append(x_store.observe(fx, np, t, ('trunc', o), vals, 'pyint', rng.choice(['ctor', 'call', 'set_val', 'setitem', 'call-reset']), ['C18'], False))
+        out.append(x_store.observe(fx, np, t, ('trunc', o), vals, 'pyint', rng.choice(['ctor', 'call', 'set_val', 'setitem', 'call-reset', 'widen-setitem']), ['C18'], False))
         # (3) bin / hex strings in raw mode (rendered by the real code from in-range codes), scalars and arrays
         inr = inr or [0]
         for kind, rt in (('bin0b', 'ctor'), ('hex', 'ctor'), ('bin', 'from_bin'), ('hex', 'set_val'), ('bin0b', 'set_val')):
